@@ -14,6 +14,10 @@ Correspondence between Model/C07_Config.v (a composition of the C17 sampling mod
     0 / len-1 for the subset encodings, one bounded variable per row for the vector encodings); the sorting optimiser's choice is compared
     with the model over the criterion of EVERY row, also on relabelled populations and on the relabelling that puts the best crosses in
     the tail of the map,
+  * the multi-objective choice of every protocol class over a grid of declared preferences (ndset_wt negative / positive non-unit / unit x
+    the default distance transformation with default and non-default keyword arguments, a non-homogeneous squared distance, a step
+    function with ties, a weighted sum): the exhaustive stub's own record of the front, the declared transformation evaluated by the
+    harness, the first maximiser of ndset_wt * ndset_trans(soln_obj, **kwargs) - predicate, and mo_choice in Coq,
 plus the independent predicate (the property stated on the implementation's outputs).
 Kernel expressions (Gen/C07_Kernel.v) are regenerated from the source by harness/translate/c07_kernel.py on every run (translate())."""
 import copy, itertools, math, random as _pyrandom
@@ -36,7 +40,9 @@ LEVEL_TEXT = ("Coq theorems over an executable model that composes the (proved) 
               "nprogeny a selection protocol accepts at construction is accepted by the configuration select() builds; triudix / "
               "triuix enumerate exactly the strictly increasing / non-decreasing k-tuples below n in lexicographic order; the sorting "
               "optimiser returns a top-k set which minimises the summed criterion and commutes with relabelling under distinct criterion "
-              "values; the multi-objective choice is the first argmax of ndset_wt * (declared transformation of the front); a 0/1 vector over "
+              "values; the multi-objective choice is the first argmax of ndset_wt * (declared transformation of the front) - the weight multiplies the OUTPUT of the "
+              "transformation, so the choice depends on the weight through its sign only (C07_mo_choice_weight_sign_only) and a weight applied to the input of the "
+              "transformation provably chooses another point (C07_mo_weight_inside_transformation_differs); a 0/1 vector over "
               "candidate crosses (BinaryMateSelectionConfiguration) uses the marked crosses floor or ceiling of ncross/k times, a contribution "
               "vector over candidate crosses (RealMateSelectionConfiguration) floor or ceiling of ncross*x_i/sum(x); the integer decision space UsefulnessCriterionIntegerSelection builds over the candidate "
               "crosses has, for every accepted cross design, one [0, nparent*sum(nmating)] pair per candidate cross and contains every allocation "
@@ -71,7 +77,14 @@ RULE = ("case = (kind in {cfg, life, xmap, select, audit}, arguments, draw scrip
         "families EBV (4 encodings), GEBV, OCS, Random, OHV (subset- and integer-mate), UC (all four encodings over candidate crosses; the integer one with 1..3 crosses, scalar and per-cross nmating, its decision-space bounds compared with the model), 3..8 taxa, 1..2 traits, ties and distinct criteria, zero / negative / "
         "wrong-length nmating and nprogeny (must be refused by the constructor), nobj 1..2, weights of "
         "both signs, sorting optimiser / sorting hill climber / brute-force exact stubs, default and harness transformations of the front, "
-        "a relabelled second run; every one-objective subset-encoded run over a cross map is repeated on the population relabelled so that its best "
+        "a relabelled second run; a grid of two-objective select() cases over all 24 protocol classes x ndset_wt in {negative (-1, -2, -1/2, -4), positive non-unit "
+        "(1/2, 2, 4, 1/4), unit (1.0, None)} x transformation of the front in {library default with default keyword arguments, library default with non-default "
+        "obj_wt signs / vec_wt preference vectors (also handed in explicitly), harness squared distance to a reference point (not positively homogeneous), harness "
+        "three-valued step function (ties), weighted sum} (quick: nine pairs per class, thorough: the full grid twice), mostly antagonistic traits (long fronts), the "
+        "exhaustive stub returns the whole frontier of its candidate list and keeps its own record of it; the choice is judged (predicate) on that record and on the "
+        "DECLARED weight / transformation / keyword arguments evaluated by the harness itself (first maximiser of ndset_wt * ndset_trans(soln_obj, **kwargs); exact "
+        "rational keys decide whether a deviation is more than rounding), with and without miscout, and in Coq against mo_choice over the same record; "
+        "every one-objective subset-encoded run over a cross map is repeated on the population relabelled so that its best "
         "ncross crosses are crosses among the highest-index taxa (tail of the map, selfs included when parents may repeat); fixed cases drive all eight "
         "cross-map protocols with unique_parents both ways, 1..4 crosses, 3 parents (OHV), reversed / permuted relabellings; the problem handed to the "
         "optimiser is recorded at minimize() (decision space, bounds, ndecn, the problem's own cross map) and the per-row criterion is evaluated on EVERY row "
@@ -86,6 +99,8 @@ TRUSTED = ["C17 model of the sampling utilities (checked by the C17 corresponden
            "map as its decision space (OHV: from_pgmat_gpmod recomputes it from the same three arguments; UC: the map is handed on as decn_space_xmap)",
            "props.c07._recording: the optimiser's minimize() is wrapped on the instance to record the problem it is handed, then calls the original",
            "harness-side exact optimiser stubs (enumeration) are correct minimisers over their finite candidate lists",
+           "props.c07._ref_vec_dist (the documented default distance transformation written out in the harness), _sqdist_trans / _step_trans / _wsum_trans (harness "
+           "transformations handed to the protocols) and _exact_keys (their exact rational counterparts) compute the declared preference over a front",
            "props.c07._Lazy: shuffle(x) with permutation pm sets x[i] = x[pm[i]]; choice returns a[ix] (a scalar request choice(n) returns ix < n); uniform returns the recorded value"]
 ASSUMPTIONS = ["decision vectors as the configuration setters accept them (1-d, integer / binary / floating); real vectors non-negative with positive sum on a dyadic grid",
                "multi-objective scores are finite (no NaN in ndset_wt * ndset_trans(front))",
@@ -464,6 +479,65 @@ def _select_case(rng, fam=None, enc=None, nobj=None, algo=None):
     if rng.random() < 0.35: case["session"] = _session_steps(rng, case)
     return case
 
+MO_WT = {"neg": [-1.0, -1.0, -2.0, -0.5, -4.0], "pos": [0.5, 2.0, 4.0, 0.25], "unit": [1.0, None]}     # powers of two: the product with the transformation is exact
+MO_TRANS = ("default", "dist", "sqdist", "step", "wsum")
+# quick tier: nine (sign class of ndset_wt, transformation) pairs per protocol class; thorough: the full grid
+MO_QUICK = [("neg", "dist"), ("neg", "sqdist"), ("neg", "default"), ("neg", "step"), ("pos", "sqdist"), ("pos", "dist"), ("unit", "dist"), ("unit", "sqdist"), ("pos", "wsum")]
+
+def _mo_params(rng, case, wcls, trans):
+    """declared preference over the front: ndset_wt of the given sign class and one of the transformations - the library's default
+    distance transformation with its default / with non-default keyword arguments (objective signs, preference vector), the
+    harness' squared distance to a reference point (not homogeneous), its three-valued step function (ties), a weighted sum"""
+    no = case["nobj"]
+    for k in ("ndset_w", "ndset_c", "ndset_obj_wt", "ndset_vec_wt", "ndset_explicit"): case.pop(k, None)
+    case["ndset"] = trans; case["ndset_wt"] = rng.choice(MO_WT[wcls])
+    if trans == "dist":
+        while True:
+            ow = [rng.choice([1.0, -1.0]) for _ in range(no)]; vw = [rng.choice([1.0, 1.0, 0.5, 2.0, 0.25, 3.0, 0.0]) for _ in range(no)]
+            if any(vw) and (ow != [1.0] * no or vw != [1.0] * no): break
+        case["ndset_obj_wt"] = ow; case["ndset_vec_wt"] = vw; case["ndset_explicit"] = rng.random() < 0.3
+    elif trans == "sqdist": case["ndset_c"] = [rng.randint(-16, 16) / 4.0 for _ in range(no)]
+    elif trans == "step": case["ndset_w"] = [rng.choice([1.0, -1.0, 0.5, 2.0]) for _ in range(no)]
+    elif trans == "wsum": case["ndset_w"] = [rng.choice([1.0, -1.0, 0.5, 2.0, 0.0]) for _ in range(no)]
+    return case
+
+def _mo_case(rng, fam, enc, wcls, trans):
+    """a two-objective select() of one protocol class with a declared preference of the grid; the exhaustive stub returns the whole
+    frontier (of its candidate list), miscout present or absent - the stub's own record of the front is what the choice is judged on"""
+    case = _select_case(rng, fam, enc, 2, "stub")
+    nc = case["ncross"]
+    for key in ("nmating", "nprogeny"):                        # a valid cross design: the optimisation has to run
+        v = case[key]
+        if (v <= 0) if isinstance(v, int) else (len(v) != nc or any(x <= 0 for x in v)): case[key] = rng.randint(1, 4)
+    if enc == "subset" and fam != "random" and nc * case["nparent"] > case["ntaxa"]:
+        case["nparent"] = min(case["nparent"], case["ntaxa"]); case["ncross"] = max(1, case["ntaxa"] // case["nparent"]); case["nmating"] = rng.randint(1, 4); case["nprogeny"] = rng.randint(1, 4)
+        case.pop("session", None)
+    if len(set(map(tuple, case["bv"]))) < len(case["bv"]) and rng.random() < 0.7:   # mostly distinct values: fronts of several points
+        cols = [rng.sample(range(-40, 41), case["ntaxa"]) for _ in range(case["ntrait"])]
+        case["bv"] = [[cols[t][i] for t in range(case["ntrait"])] for i in range(case["ntaxa"])]
+    if case["ntrait"] == 2 and rng.random() < 0.85:
+        # antagonistic traits (breeding values and marker effects): most candidates are mutually non-dominated, the front is long
+        n = case["ntaxa"]; a = rng.sample(range(-40, 41), n); b = sorted(rng.sample(range(-40, 41), n), reverse=True)
+        rk = sorted(range(n), key=lambda i: a[i]); col1 = [0] * n
+        for pos, i in enumerate(rk): col1[i] = b[pos]
+        if n >= 2: i, j = rng.sample(range(n), 2); col1[i], col1[j] = col1[j], col1[i]
+        case["bv"] = [[a[i], col1[i]] for i in range(n)]
+        case["u"] = [[x, -x + rng.choice([-1, 0, 0, 1])] for x in (rng.choice([-8, -6, -5, -3, -2, 2, 3, 5, 6, 8]) for _ in range(case["nvrnt"]))]
+        case["obj_wt"] = rng.choice([None, [1.0, 1.0], [0.5, 2.0], [-1.0, -1.0]])       # (objective weights of one sign keep the traits antagonistic)
+    case["mogrid"] = wcls
+    return _mo_params(rng, case, wcls, trans)
+
+def _mo_grid(rng, tier):
+    out = []
+    for fam, enc in sorted(set(FAMILIES)):
+        if tier == "quick":
+            for wcls, trans in MO_QUICK: out.append(_mo_case(rng, fam, enc, wcls, trans))
+        else:
+            for wcls in MO_WT:
+                for trans in MO_TRANS:
+                    for _ in range(2): out.append(_mo_case(rng, fam, enc, wcls, trans))
+    return out
+
 def _session_steps(rng, case):
     """further select() calls on the SAME protocol object: cross-design parameters changed through the setters, the breeding
     values overwritten in place in the same matrix object, a relabelled population - each result must depend on the state at
@@ -624,6 +698,7 @@ def gen_cases(rng, tier):
         for nobj in (1, 2):
             for _ in range(2 if q else 40): cases.append(_select_case(rng, fam, enc, nobj))
     for _ in range(60 if q else 1200): cases.append(_select_case(rng))
+    cases += _mo_grid(rng, tier)
     for _ in range(2 if q else 30): cases.append(_select_case(rng, "ebv", "subset", 1, "ga"))
     for cls in ("subset", "real", "integer", "binary", "mate", "imate", "bmate", "rmate"):
         for _ in range(12 if q else 200): cases.append(_cfg_case(rng, cls))
@@ -987,6 +1062,9 @@ def _stub_algo(enc, case):
                 best = min(range(len(cands)), key=lambda i: (float(objs[i][0]), i)); idx = [best]
             else: idx = _nondominated(objs)
             if case.get("front_order") == "rev": idx = idx[::-1]
+            # what the optimiser returns (decisions and objective vectors of the whole frontier, in order): the reference the
+            # multi-objective choice is judged against, whatever the protocol later stores in miscout
+            self.last = {"decn": [cands[i].tolist() for i in idx], "obj": [[_hx(v) for v in objs[i]] for i in idx], "float": cands[0].dtype.kind == "f"}
             return Soln(ndecn=prob.ndecn, decn_space=prob.decn_space, decn_space_lower=prob.decn_space_lower, decn_space_upper=prob.decn_space_upper,
                         nobj=prob.nobj, obj_wt=prob.obj_wt, nineqcv=prob.nineqcv, ineqcv_wt=prob.ineqcv_wt, neqcv=prob.neqcv, eqcv_wt=prob.eqcv_wt,
                         nsoln=len(idx), soln_decn=numpy.stack([cands[i] for i in idx]), soln_obj=numpy.stack([objs[i] for i in idx]),
@@ -1025,6 +1103,75 @@ def _wsum_trans(mat, w, **kwargs):
     """harness transformation of the front with exact (dyadic) values: weighted sum of the objectives"""
     return numpy.asarray(mat, dtype=float).dot(numpy.asarray(w, dtype=float))
 
+def _sqdist_trans(mat, c, **kwargs):
+    """harness transformation of the front, NOT positively homogeneous: squared distance of every point to the reference point c"""
+    d = numpy.asarray(mat, dtype=float) - numpy.asarray(c, dtype=float)
+    return (d * d).sum(1)
+
+def _step_trans(mat, w, **kwargs):
+    """harness transformation of the front with few values (ties are the rule), not homogeneous: 0 / 1 / 2 for a weighted sum
+    below / at / above the middle of its range"""
+    v = numpy.asarray(mat, dtype=float).dot(numpy.asarray(w, dtype=float))
+    return numpy.sign(v - (v.min() + v.max()) / 2.0) + 1.0
+
+def _ref_vec_dist(mat, obj_wt, vec_wt):
+    """the documented default transformation (distance of each point, objectives signed and scaled to [0,1] over the front, to the
+    line spanned by the preference vector), written out here from its documentation"""
+    m = numpy.asarray(mat, dtype=float) * numpy.asarray(obj_wt, dtype=float)
+    m = m - m.min(0)
+    mx = m.max(0); mask = (mx == 0.0); mx[mask] = 1.0
+    sc = 1.0 / mx; sc[mask] = 0.0
+    m = sc * m
+    v = numpy.asarray(vec_wt, dtype=float)
+    s = m.dot(v) * (1.0 / v.dot(v))
+    return numpy.linalg.norm(m - numpy.outer(s, v), axis=1)
+
+def _mo_decl(case):
+    """(kind, keyword arguments) of the transformation of the front the case DECLARES to the protocol"""
+    kind = case.get("ndset") or "default"
+    no = case["nobj"]
+    if kind == "default": return kind, {"obj_wt": [1.0] * no, "vec_wt": [1.0] * no}
+    if kind == "dist": return kind, {"obj_wt": list(case["ndset_obj_wt"]), "vec_wt": list(case["ndset_vec_wt"])}
+    if kind == "sqdist": return kind, {"c": [v * 2.0 ** case.get("bvexp", 0) for v in case["ndset_c"]]}
+    return kind, {"w": list(case["ndset_w"])}
+
+def _ref_trans(case, objs):
+    """the declared transformation applied by the harness itself to a front (rows of binary64 objective values)"""
+    kind, kw = _mo_decl(case)
+    mat = numpy.array(objs, dtype=float)
+    if kind in ("default", "dist"): return _ref_vec_dist(mat, kw["obj_wt"], kw["vec_wt"])
+    return {"wsum": _wsum_trans, "sqdist": _sqdist_trans, "step": _step_trans}[kind](mat, **kw)
+
+def _exact_keys(case, objs):
+    """rationals ordered like ndset_wt * (declared transformation) over the front, computed exactly from the recorded binary64
+    objective values (for the distance transformation: sign(ndset_wt) * squared distance)"""
+    kind, kw = _mo_decl(case)
+    wt = F(1.0 if case.get("ndset_wt") is None else case["ndset_wt"])
+    M = [[F(v) for v in r] for r in objs]
+    if not M: return []
+    no = len(M[0])
+    if kind in ("default", "dist"):
+        ow = [F(v) for v in kw["obj_wt"]]; vw = [F(v) for v in kw["vec_wt"]]
+        M = [[r[j] * ow[j] for j in range(no)] for r in M]
+        mn = [min(r[j] for r in M) for j in range(no)]
+        M = [[r[j] - mn[j] for j in range(no)] for r in M]
+        mx = [max(r[j] for r in M) for j in range(no)]
+        M = [[(r[j] / mx[j]) if mx[j] != 0 else F(0) for j in range(no)] for r in M]
+        vv = sum(v * v for v in vw)
+        keys = []
+        for r in M:
+            sc = sum(r[j] * vw[j] for j in range(no)) / vv
+            keys.append(sum((r[j] - sc * vw[j]) ** 2 for j in range(no)) * (1 if wt > 0 else -1))
+        return keys
+    if kind == "sqdist":
+        c = [F(v) for v in kw["c"]]
+        return [wt * sum((r[j] - c[j]) ** 2 for j in range(no)) for r in M]
+    w = [F(v) for v in kw["w"]]
+    v = [sum(r[j] * w[j] for j in range(no)) for r in M]
+    if kind == "wsum": return [wt * x for x in v]
+    mid = (min(v) + max(v)) / 2
+    return [wt * (((x > mid) - (x < mid)) + 1) for x in v]
+
 def _make_protocol(case, enc_algo_rng=None):
     fam, enc = case["family"], case["enc"]
     from pybrops.breed.prot.sel.prob import trans as T
@@ -1032,8 +1179,11 @@ def _make_protocol(case, enc_algo_rng=None):
     ow = case.get("obj_wt")
     if ow is not None: kw["obj_wt"] = numpy.array(ow, dtype=float) if isinstance(ow, list) else float(ow)
     if case.get("obj_trans") == "sum": kw["obj_trans"] = T.trans_sum
-    if case.get("ndset") == "wsum":
-        kw["ndset_trans"] = _wsum_trans; kw["ndset_trans_kwargs"] = {"w": numpy.array(case["ndset_w"], dtype=float)}
+    if case.get("ndset") in ("wsum", "sqdist", "step", "dist"):
+        kind, tk = _mo_decl(case)
+        if kind != "dist": kw["ndset_trans"] = {"wsum": _wsum_trans, "sqdist": _sqdist_trans, "step": _step_trans}[kind]
+        elif case.get("ndset_explicit"): kw["ndset_trans"] = T.trans_ndpt_to_vec_dist       # the default function handed in explicitly
+        kw["ndset_trans_kwargs"] = {k: numpy.array(v, dtype=float) for k, v in tk.items()}
     if case.get("ndset_wt") is not None: kw["ndset_wt"] = float(case["ndset_wt"])
     algo = case["algo"]
     if algo == "sorting":
@@ -1133,6 +1283,11 @@ def _select_once(case, perm=None, with_crit=True, stage=None, keep=None, step=No
                 if case["nobj"] > 1:
                     tv = numpy.asarray(prot.ndset_trans(s.soln_obj, **prot.ndset_trans_kwargs), dtype=float)
                     out["tvals"] = [_hx(v) for v in tv]; out["ndset_wt"] = _hx(prot.ndset_wt)
+        if case["nobj"] > 1:
+            last = getattr(prot.moalgo, "last", None)
+            if last is not None:
+                out["stub_decn"] = [[_hx(v) for v in r] for r in last["decn"]] if last["float"] else [[int(v) for v in r] for r in last["decn"]]
+                out["stub_obj"] = last["obj"]
         out["stub_calls"] = getattr(so, "ncalls", None)
         if case["enc"] == "imate":
             algo = prot.soalgo if case["nobj"] == 1 else prot.moalgo
@@ -1481,6 +1636,18 @@ def _emit_select1(case, out):
             ceq = ("zll_eqb c %s" if matelike else "zl_eqb c %s") % want_xc
             parts.append("match select_mo %s (fun _ => %s) %s %s %s with Some (d, c) => %s && %s | None => false end"
                          % (E.q(F(_fh(out["ndset_wt"]))), E.lst(tv, lambda v: E.q(F(v))), front, decns, fcfg, deq, ceq))
+        if out.get("stub_obj") is not None:
+            # the model's choice over the front the optimiser returned, under the DECLARED weight and transformation (values of the
+            # transformation computed by the harness from the case, not by the protocol): mo_choice picks the configuration's decision
+            sobj = [[_fh(h) for h in r] for r in out["stub_obj"]]
+            rt = [float(v) for v in _ref_trans(case, sobj)]
+            if len(rt) == len(sobj) and all(math.isfinite(v) for v in rt):
+                dl = (lambda d: E.lst([_fh(h) for h in d], E.fhex)) if real else _zl
+                lit = E.lst(decn, E.fhex) if real else _zl(decn)
+                wt = 1.0 if case.get("ndset_wt") is None else float(case["ndset_wt"])
+                parts.append("match mo_choice %s (fun _ => %s) %s %s with Some d => %s | None => false end"
+                             % (E.q(F(wt)), E.lst(rt, lambda v: E.q(F(v))), E.lst(sobj, lambda r: E.lst(r, lambda v: E.q(F(v)))),
+                                E.lst(out["stub_decn"], dl), ("fl_eqb7 d %s" if real else "zl_eqb d %s") % lit))
     return "(" + "\n  && ".join(parts) + ")"
 
 # ================================================================== independent predicate
@@ -1756,6 +1923,40 @@ def _pred_space(case, sp, what=""):
             if enc == "imate" and any(not isinstance(v, int) or v < 1 for v in sp["upper"]): bad.append(what + "upper bound of the decision space %r excludes using a candidate cross once" % sp["upper"][:8])
     return bad
 
+def _pred_mo_choice(case, out):
+    """multi-objective clause, judged on the front the optimiser RETURNED (the stub's own record, present with and without miscout)
+    and on the preference the case DECLARED (weight, transformation and its keyword arguments - not the protocol's attributes):
+    the configuration's decision is the row of the first maximiser of ndset_wt * ndset_trans(soln_obj, **ndset_trans_kwargs)"""
+    sd, so = out.get("stub_decn"), out.get("stub_obj")
+    if sd is None or so is None: return ["the multi-objective optimiser was not consulted by select()"]
+    bad = []
+    if out.get("soln_decn") is not None and (out["soln_decn"] != sd or out.get("soln_obj") != so):
+        bad.append("miscout['mosoln'] (%d points) is not the solution the multi-objective optimiser returned (%d points)" % (len(out["soln_decn"]), len(sd)))
+    objs = [[_fh(h) for h in r] for r in so]
+    wt = 1.0 if case.get("ndset_wt") is None else float(case["ndset_wt"])
+    ref = wt * numpy.asarray(_ref_trans(case, objs), dtype=float)
+    if len(ref) != len(sd) or not numpy.all(numpy.isfinite(ref)): return bad          # (ASSUMPTIONS: finite scores)
+    if "tvals" in out:
+        tv = numpy.array([_fh(h) for h in out["tvals"]])
+        r0 = numpy.asarray(_ref_trans(case, [[_fh(h) for h in r] for r in out["soln_obj"]]), dtype=float)
+        if len(tv) != len(r0) or not numpy.allclose(tv, r0, rtol=1e-12, atol=0.0, equal_nan=True):
+            bad.append("the protocol's ndset_trans / ndset_trans_kwargs do not compute the declared transformation (%s %r)" % _mo_decl(case))
+    ix = int(numpy.argmax(ref))
+    got = [i for i, d in enumerate(sd) if d == out["decn"]]
+    if ix in got: return bad
+    kind, kw = _mo_decl(case)
+    what = "ndset_wt=%r, ndset_trans=%s, ndset_trans_kwargs=%r" % (wt, kind, kw)
+    if not got:
+        return bad + ["the configuration's decision %r is no row of the front the optimiser returned (%s)" % (out["decn"][:8], what)]
+    keys = _exact_keys(case, objs); c = got[0]
+    tol = F(1, 10 ** 9) * (1 + max(abs(k) for k in keys))
+    if ref[c] == ref[ix]:
+        bad.append("configuration built from front row %d, a maximiser of ndset_wt * ndset_trans(soln_obj, **kwargs) but not the FIRST one (row %d, score %r; %s)" % (c, ix, float(ref[ix]), what))
+    elif abs(keys[c] - keys[ix]) > tol or keys[c] == keys[ix]:
+        bad.append("configuration built from front row %d (score %r), but ndset_wt * ndset_trans(soln_obj, **kwargs) is maximal at row %d (score %r) of the %d-point front; %s"
+                   % (c, float(ref[c]), ix, float(ref[ix]), len(sd), what))
+    return bad                                                        # (else: the two rows differ by rounding only)
+
 def _pred_select1(case, out):
     bad = []
     enc = case["enc"]; nc, npar = case["ncross"], case["nparent"]; fam = case["family"]
@@ -1811,6 +2012,7 @@ def _pred_select1(case, out):
                 want_wt = 1.0 if case.get("ndset_wt") is None else case["ndset_wt"]
                 if _fh(out["ndset_wt"]) != want_wt: bad.append("ndset_wt %r differs from the declared %r" % (_fh(out["ndset_wt"]), want_wt))
             if enc in CROSS_BASED and not out.get("soln_xmap_same", True): bad.append("configuration's cross map differs from the solution's")
+    if case["nobj"] > 1: bad += _pred_mo_choice(case, out)
     # --- clause (a): the decision space handed to the optimiser
     bad += _pred_space(case, out.get("space"))
     for tag in ("relabel", "tail"):
@@ -1931,7 +2133,10 @@ def describe(case, out):
     elif case["kind"] == "select":
         d.update({"family": case["family"], "enc": case["enc"], "nobj": case["nobj"], "algo": case["algo"], "relabel": bool(case.get("relabel")),
                   "session": ",".join(sorted(k for st in case.get("session", []) for k in st)) or "-", "bvexp": case.get("bvexp", 0),
-                  "ndset": case.get("ndset", "n/a"), "ties": len(set(map(tuple, case["bv"]))) < len(case["bv"])})
+                  "ndset": case.get("ndset", "n/a"), "ties": len(set(map(tuple, case["bv"]))) < len(case["bv"]),
+                  "ndset_wt": "n/a" if case["nobj"] == 1 else ("unit" if case.get("ndset_wt") in (None, 1.0) else ("neg" if case["ndset_wt"] < 0 else "pos")),
+                  "front": "n/a" if not out.get("stub_obj") else ("1" if len(out["stub_obj"]) == 1 else ("2-3" if len(out["stub_obj"]) <= 3 else "4+")),
+                  "mogrid": bool(case.get("mogrid"))})
     elif case["kind"] == "xmap":
         d.update({"fn": case["fn"], "k": case["k"], "n": "0" if case["n"] == 0 else ("1-3" if case["n"] <= 3 else "4-7")})
     return d
